@@ -63,9 +63,24 @@ class Profile:
         observe=True,
         late_allocs=False,
         phi_liveout=False,
+        forbidden=(),
     ):
         self.__dict__.update(locals())
         del self.__dict__["self"]
+        self.forbidden = frozenset(tuple(x) for x in forbidden)
+
+    def allowed(self, kind, ty, op="*"):
+        return (kind, ty, op) not in self.forbidden
+
+
+def target_profile(target, **kw):
+    """Profile restricted to what ppci's code generator for `target` can compile (vf/data/optable.json)."""
+    import json
+    import os
+
+    path = os.path.join(os.path.dirname(os.path.abspath(__file__)), "data", "optable.json")
+    table = json.load(open(path)).get(target, [])
+    return Profile(name=target, forbidden=table, **kw)
 
 
 FULL = Profile()
@@ -394,7 +409,7 @@ class _FuncGen:
                     pool.setdefault(ty, []).extend(names)
             e1, e2 = "%s_d%da" % (self.name, b), "%s_d%db" % (self.name, b)
             tmp = []
-            cty = self.pick(self.types)
+            cty = self.pick([t for t in self.types if prof.allowed("cjmp", t)] or self.types)
             x = self.value_of(cty, pool, tmp)
             y = self.value_of(cty, pool, tmp)
             for ins in body[c]:
@@ -498,6 +513,9 @@ class _FuncGen:
         ints = [t for t in self.types if not is_float(t)]
         ty = self.pick(self.types if self.chance(30) else (ints or self.types))
         ops = ["+", "-"] if not is_float(ty) and self.chance(80) else (FLOAT_OPS if is_float(ty) else ["+", "-", "*", "&", "|", "^"])
+        ops = [o for o in ops if self.prof.allowed("binop", ty, o)]
+        if not ops:
+            return
         y = self.value_of(ty, pool, out, allow_new=False) if pool.get(ty) else self.value_of(ty, pool, out)
         c1 = self.new_const(ty, pool, out)
         t = self.fresh()
@@ -522,11 +540,16 @@ class _FuncGen:
         if r < 38:  # binop
             ty = self.pick(self.types)
             if is_float(ty):
-                op = self.pick(FLOAT_OPS)
+                fops = [o for o in FLOAT_OPS if prof.allowed("binop", ty, o)]
+                if not fops:
+                    return
+                op = self.pick(fops)
                 a = self.value_of(ty, pool, out)
                 b = self.value_of(ty, pool, out)
             else:
-                ops = INT_OPS + (ROT_OPS if prof.rotates else [])
+                ops = [o for o in INT_OPS + (ROT_OPS if prof.rotates else []) if prof.allowed("binop", ty, o)]
+                if not ops:
+                    return
                 op = self.pick(ops)
                 a = self.value_of(ty, pool, out)
                 if op in ("/", "%"):
@@ -541,6 +564,8 @@ class _FuncGen:
         elif r < 44 and prof.unops:
             ty = self.pick(self.types)
             op = "-" if is_float(ty) else self.pick(["-", "~"])
+            if not prof.allowed("unop", ty, op):
+                return
             a = self.value_of(ty, pool, out)
             n = self.fresh()
             out.append(["unop", n, ty, op, a])
@@ -554,6 +579,8 @@ class _FuncGen:
                 wide = [t for t in self.types if not is_float(t) and BITS[t] >= 32 and is_signed(t)]
                 if wide:
                     dty = self.pick(wide)
+            if not prof.allowed("cast", sty, dty):
+                return
             src = self.value_of(sty, pool, out)
             n = self.fresh()
             out.append(["cast", n, dty, src])
@@ -635,6 +662,8 @@ class _FuncGen:
             return
         x = v
         if ty != acc_ty:
+            if not self.prof.allowed("cast", ty, acc_ty):
+                return
             x = self.fresh("ob")
             out.append(["cast", x, acc_ty, v])
         old = self.fresh("ob")
@@ -768,7 +797,7 @@ class _FuncGen:
         if kind == "jmp":
             out.append(["jmp", bn[succs[0]]])
         else:
-            ty = self.pick(self.types)
+            ty = self.pick([t for t in self.types if self.prof.allowed("cjmp", t)] or self.types)
             a = self.value_of(ty, pool, out)
             c = self.value_of(ty, pool, out)
             out.append(["cjmp", a, self.pick(CONDS), c, bn[succs[0]], bn[succs[1]]])
